@@ -75,7 +75,13 @@ pub fn run_property(prop: &str, tier: Tier, seed: u64, scale: f64) -> i32 {
             batch(&Wire, tier, seed, 600_000, 10_000_000, scale),
             batch(&Decoders { mode: PureMode::Codecs }, tier, seed, 40_000, 1_000_000, scale),
         ],
-        "C10" => vec![batch(&Session, tier, seed, 80_000, 1_500_000, scale)],
+        "C10" => {
+            extra.insert("enumerated_sub_space".into(), serde_json::json!(format!("batch session-enum covers all {} (quick) / {} (thorough) combinations of side x accept outcome x local fault placement x script of up to 2 / 3 frames over 13 representative frames", crate::scen::session::enum_space(2), crate::scen::session::enum_space(3))));
+            vec![
+                batch(&Session { enumerate: false }, tier, seed, 80_000, 1_500_000, scale),
+                batch(&Session { enumerate: true }, tier, seed, crate::scen::session::enum_space(2), crate::scen::session::enum_space(3), 1.0),
+            ]
+        }
         "C11" => vec![
             batch(&Coord, tier, seed, 20_000, 400_000, scale),
             batch(&CoordReal, tier, seed, 6_000, 150_000, scale),
@@ -124,7 +130,8 @@ fn replay_dispatch(prop: &str, scenario: &str, plan: Value) -> Result<(Option<cr
         (_, "filters-pure") => replay_plan(&Decoders { mode: PureMode::Filters }, plan),
         (_, "swarm") => replay_plan(&Swarm { big_skew: false }, plan),
         (_, "swarm-bigskew") => replay_plan(&Swarm { big_skew: true }, plan),
-        (_, "session") => replay_plan(&Session, plan),
+        (_, "session") => replay_plan(&Session { enumerate: false }, plan),
+        (_, "session-enum") => replay_plan(&Session { enumerate: true }, plan),
         (_, "query") => replay_plan(&QueryScen { large: false }, plan),
         (_, "query-large") => replay_plan(&QueryScen { large: true }, plan),
         (_, "actor") => replay_plan(&ActorScen { cap_focus: false, removal_focus: false, crash_focus: false }, plan),
@@ -251,7 +258,7 @@ pub fn determinism(prop: Option<&str>, seeds: u64) -> i32 {
     if all || p == "C06" { twice(&Crash { long: false }, seeds.min(60), &mut bad); twice(&Crash { long: true }, seeds.min(40), &mut bad); }
     if all || p == "C07" { twice(&Docs { mode: DocsMode::Cap }, seeds, &mut bad); }
     if all || p == "C09" { twice(&Wire, seeds, &mut bad); twice(&Decoders { mode: PureMode::Codecs }, seeds, &mut bad); }
-    if all || p == "C10" { twice(&Session, seeds, &mut bad); }
+    if all || p == "C10" { twice(&Session { enumerate: false }, seeds, &mut bad); }
     if all || p == "C11" { twice(&Coord, seeds.min(100), &mut bad); twice(&CoordReal, seeds.min(100), &mut bad); }
     if all || p == "C12" { twice(&Events { only_download: false }, seeds, &mut bad); }
     if all || p == "C14" { twice(&ActorScen { cap_focus: false, removal_focus: false, crash_focus: false }, seeds, &mut bad); }
